@@ -409,6 +409,8 @@ pub fn run(tier: Tier) -> i32 {
     // representations: every array that deviates from the constant array in at most three positions
     {
         let vals = [json!(9007199254740993u64), json!(9007199254740992u64), json!(9007199254740992.0), json!(9007199254740994u64)];
+        // the same arrays over values of different types (a constant key makes every pair a tie)
+        let mixed_vals = [json!(1), json!("a"), json!(2), json!("b")];
         let mut work: Vec<(usize, usize)> = Vec::new();
         for len in tier.pick(vec![21usize, 22], vec![21, 22, 23, 24, 32, 33]) {
             for first in 0..len {
@@ -418,7 +420,21 @@ pub fn run(tier: Tier) -> i32 {
         let sd = par_sweep(work, |&(len, first), st| {
             let sort = jmespath::compile("sort(@)").unwrap();
             let sort_by = jmespath::compile("sort_by(@, &@)").unwrap();
+            let sort_by_const = jmespath::compile("sort_by(@, &`0`)").unwrap();
+            let max_by_const = jmespath::compile("max_by(@, &'k')").unwrap();
+            let sort_by_len = jmespath::compile("sort_by(@, &length(to_string(@)))").unwrap();
             let mut run = |arr: &Vec<usize>, st: &mut Stats| {
+                let dm = Value::Array(arr.iter().map(|&i| mixed_vals[i].clone()).collect());
+                let rcm = value_to_var(&dm);
+                for (name, e) in [("sort_by(@, &`0`)", &sort_by_const), ("max_by(@, &'k')", &max_by_const), ("sort_by(@, &length(to_string(@)))", &sort_by_len)] {
+                    st.states += 1;
+                    st.evaluations += 1;
+                    st.validated += 1;
+                    match guarded(|| e.search(rcm.clone()).is_ok()) {
+                        Ok(_) => st.outcome("mixed-type tie sort returned"),
+                        Err(m) => st.violate(Violation { key: panic_key(&m), check: "mixed-type-tie-sort".into(), case: json!({"kind": "search", "expression": name, "document": dm}), expected: "Ok or Err".into(), actual: format!("panic: {}", m) }),
+                    }
+                }
                 let d = Value::Array(arr.iter().map(|&i| vals[i].clone()).collect());
                 let rc = value_to_var(&d);
                 for (name, e) in [("sort(@)", &sort), ("sort_by(@, &@)", &sort_by)] {
